@@ -14,3 +14,61 @@ contract('gnpy.core.info.SpectralInformation.add_ase', props=['C01', 'C02'],
                   ('split', 'forall(lambda i: self.signal[i] + self.ase[i] + self.nli[i] == self._pch[i], NCH(self))'),
                   ],
          modifies=SHARES + ['self._pch'])
+
+contract('gnpy.core.info.SpectralInformation.add_nli', props=['C01', 'C02'],
+         params={'self': SI(), 'nli': vec('n')}, spec=SPEC_INV,
+         requires=[('inv', 'INV(self)'),
+                   ('nli_within_channel_power', 'forall(lambda i: 0 <= nli[i] and nli[i] <= self._pch[i], NCH(self))')],
+         ensures=[('inv', 'INV(self)'),
+                  ('signal_share', 'forall(lambda i: self._signal_ratio[i] == old(self._signal_ratio)[i] * (1 - nli[i] / self._pch[i]), NCH(self))'),
+                  ('ase_share', 'forall(lambda i: self._ase_ratio[i] == old(self._ase_ratio)[i] * (1 - nli[i] / self._pch[i]), NCH(self))'),
+                  ('nli_power_added', 'forall(lambda i: self._nli_ratio[i] * self._pch[i] == old(self._nli_ratio)[i] * (self._pch[i] - nli[i]) + nli[i], NCH(self))'),
+                  ('osnr_ase_kept', 'forall(lambda i: self._signal_ratio[i] * old(self._ase_ratio)[i] == old(self._signal_ratio)[i] * self._ase_ratio[i], NCH(self))'),
+                  ('snr_nli_not_up', 'forall(lambda i: self._signal_ratio[i] * old(self._nli_ratio)[i] <= old(self._signal_ratio)[i] * self._nli_ratio[i], NCH(self))'),
+                  ('split', 'forall(lambda i: self.signal[i] + self.ase[i] + self.nli[i] == self._pch[i], NCH(self))'),
+                  ],
+         modifies=SHARES)
+
+for _nm, _arg, _rel in (('apply_attenuation_lin', 'attenuation_lin', 'old(self._pch)[i] * at(attenuation_lin, i)'),
+                        ('apply_gain_lin', 'gain_lin', 'old(self._pch)[i] * at(gain_lin, i)'),
+                        ('apply_attenuation_db', 'attenuation_db', 'old(self._pch)[i] / spec_db2lin(at(attenuation_db, i))'),
+                        ('apply_gain_db', 'gain_db', 'old(self._pch)[i] * spec_db2lin(at(gain_db, i))')):
+    # the factor is a scalar (connector loss, fused loss) or a per-channel array (ROADM equalisation, gain profile)
+    for _variant, _b in (('scalar', real()), ('per-channel', vec('n'))):
+        contract(f'gnpy.core.info.SpectralInformation.{_nm}', name=f'gnpy.core.info.SpectralInformation.{_nm}[{_variant}]',
+                 props=['C01', 'C02'], use_at_calls=(_variant == 'scalar'),
+                 params={'self': SI(), _arg: _b}, spec=SPEC_INV,
+                 requires=[('inv', 'INV(self)')] +
+                          ([('factor_pos', f'forall(lambda i: at({_arg}, i) > 0, NCH(self))')] if _nm.endswith('lin') else []),
+                 ensures=[('inv', 'INV(self)'),
+                          ('power', f'forall(lambda i: self._pch[i] == {_rel}, NCH(self))')],
+                 modifies=['self._pch'])
+
+SI_ARGS = ['frequency', 'baud_rate', 'slot_width', 'pch', 'signal_ratio', 'ase_ratio', 'nli_ratio', 'roll_off',
+           'chromatic_dispersion', 'pmd', 'pdl', 'latency', 'delta_pdb_per_channel', 'tx_osnr', 'tx_power', 'label']
+
+SPEC_SORTED = '''
+def srt(x, frequency):
+    return x[argsort(frequency)]
+'''
+
+contract('gnpy.core.info.SpectralInformation.__init__', props=['C07', 'C01', 'C03'],
+         params=dict({'self': obj('SpectralInformation')},
+                     **{a: (vec('n', 'str') if a == 'label' else vec('n')) for a in SI_ARGS}),
+         spec=SPEC_SORTED,
+         let={'n': 'len(frequency)', 'pi': 'sort_perm(frequency)[0]'},
+         drops=[('overlap = [pair for pair in zip(', 'value used only in the text of the SpectrumError message')],
+         # rejected exactly when, in frequency order, two neighbouring slots overlap or a baud rate exceeds its slot
+         raises={'SpectrumError': 'any(srt(frequency, frequency)[:-1] + srt(slot_width, frequency)[:-1] / 2 > '
+                                  'srt(frequency, frequency)[1:] - srt(slot_width, frequency)[1:] / 2) '
+                                  'or any(srt(baud_rate, frequency) > srt(slot_width, frequency))'},
+         ensures=[(f'field_{a}', f'forall(lambda k: self._{a}[k] == {a}[pi(k)], n)') for a in SI_ARGS] +
+                 [('perm_range', 'forall(lambda k: 0 <= pi(k) and pi(k) < n, n)'),
+                  ('nch', 'self._number_of_channels == n'),
+                  ('len', 'len(self._frequency) == n and len(self._pch) == n and len(self._label) == n'),
+                  ('sorted', 'forall2(lambda a, b: implies(a < b, self._frequency[a] <= self._frequency[b]), n, n)'),
+                  ('no_overlap', 'forall(lambda k: self._frequency[k] + self._slot_width[k] / 2 <= '
+                                 'self._frequency[k + 1] - self._slot_width[k + 1] / 2, n - 1)'),
+                  ('baud_fits_slot', 'forall(lambda k: self._baud_rate[k] <= self._slot_width[k], n)'),
+                  ('df', 'forall2(lambda i, j: self._df[i, j] == self._frequency[j] - self._frequency[i], n, n)')],
+         modifies=['self.*'])
